@@ -356,8 +356,13 @@ func Check(r *vrep.Report, callsV []uni.Call, tsos []uni.TSOEvent, recs []*work.
 			}
 			_ = sent
 			if asyncEffective || onePCts != 0 {
+				// every mutation of the attempt, non-locking existence checks included, must have been answered with success
+				var allKeys [][]byte
+				for k := range latest {
+					allKeys = append(allKeys, []byte(k))
+				}
 				all := len(lockedKeys) > 0
-				for _, k := range lockedKeys {
+				for _, k := range allKeys {
 					done := false
 					for _, p := range v.prewrites {
 						if p.RetSeq != 0 && p.RetSeq < rb.Seq && prewriteOK(p) && p.Req.(*kvrpcpb.PrewriteRequest).UseAsyncCommit == asyncEffective {
